@@ -288,9 +288,9 @@ def _nonquery(rng: Any, hz: dict[str, bool], in_txn: bool = False, any_txn: bool
         # the instance no-ops CALL statements (nop_regexes): a no-op'd statement has the status row as its result
         pool += [{"sql": f"CALL PROC{rng.randint(1, 3)}()", "cols": ["status"], "kind": "nop"}] * 3
     if any_txn:
-        # DDL next to an open transaction of any session could be a write-write conflict: outside the properties
+        # DDL - and UPDATE/DELETE of the shared rows - next to an open transaction of any session could be a write-write conflict: outside the properties
         # (a MERGE inside the session's own transaction: known finding, description after ROLLBACK re-reads the helper table)
-        pool = [x for x in pool if x["kind"] not in ("create_table", "truncate", "comment_on", "set_comment", "cluster_by") and (x["kind"] != "merge" or not in_txn or hz["desc_merge_in_txn"])]
+        pool = [x for x in pool if x["kind"] not in ("create_table", "truncate", "comment_on", "set_comment", "cluster_by", "update", "delete") and (x["kind"] != "merge" or not in_txn or hz["desc_merge_in_txn"])]
     return rng.choice(pool)
 
 
